@@ -5,6 +5,7 @@ pub mod c08;
 pub mod c09;
 pub mod c10;
 pub mod c11;
+pub mod c12;
 pub mod c13;
 
 pub fn run(ctx: &Ctx) -> i32 {
@@ -14,6 +15,7 @@ pub fn run(ctx: &Ctx) -> i32 {
         "C09" => c09::run(ctx),
         "C10" => c10::run(ctx),
         "C11" => c11::run(ctx),
+        "C12" => c12::run(ctx),
         "C13" => c13::run(ctx),
         _ => {
             eprintln!("machinery error: no check registered for {}", ctx.prop);
@@ -40,6 +42,7 @@ pub fn replay(ctx: &Ctx, path: &str) -> i32 {
         "C09" => c09::replay(ctx, &body),
         "C10" => c10::replay(ctx, &body),
         "C11" => c11::replay(ctx, &body),
+        "C12" => c12::replay(ctx, &body),
         "C13" => c13::replay(ctx, &body),
         _ => {
             eprintln!("machinery error: no replay registered for {}", ctx.prop);
@@ -58,6 +61,7 @@ pub fn worker(args: &[String]) -> i32 {
                 c08::worker(&args[1..])
             }
         }
+        Some("C12") => c12::worker(&args[1..]),
         _ => 2,
     }
 }
